@@ -66,8 +66,9 @@ class Lemma:
         req = (" requires " + ", ".join(self.requires)) if self.requires else ""
         if canary:
             return f"pub proof fn canary_{self.name}({self.params}) by(nonlinear_arith){req} ensures false {{}}\n"
-        ens = " ensures " + ", ".join(self.ensures)
-        return f"pub proof fn {self.name}({self.params}) by(nonlinear_arith){req}{ens} {{}}\n"
+        # one ensures clause per line: a failing clause is attributed to its part by line number
+        ens = " ensures\n    " + ",\n    ".join(self.ensures)
+        return f"pub proof fn {self.name}({self.params}) by(nonlinear_arith){req}{ens}\n{{}}\n"
 
 
 def gen_type_lemmas(meta):
@@ -164,4 +165,141 @@ def gen_type_lemmas(meta):
             ens.append("({ " + lets + f"{m(g, p, X + extra)} == {lift_call(shape, p, X, ['(' + t + ')' for t in tab['g']])}" + " })")
         out.append(Lemma(f"lem_{ty}_{g}", reals(X + extra), tab.get("hyps", []), ens, ["C01", "C03"],
                          f"{g}: result jet = lift of the derivative table of {g} at x.re"))
+    return out
+
+
+# ----------------------------------------------------------------------------------------------
+# second group: composite functions, sign functions, powers, spherical Bessel
+# ----------------------------------------------------------------------------------------------
+def tab_g(name, extra=""):
+    t = TABLES[name]
+    lets = "".join(f"let {n} = {e}; " for n, e in t["atoms"])
+    return lets, ["(" + g + ")" for g in t["g"]]
+
+
+def gen_type_lemmas2(meta):
+    ty = meta["unit"]
+    shape = TYPE_SHAPE[ty]
+    parts = SHAPES[shape]
+    fns = fn_by_mname(meta)
+    order = ORDER[shape]
+    out = []
+    X = [f"x_{p}" for p in parts]
+    N = [f"n_{p}" for p in parts]
+    zeros = ["0real"] * (len(parts) - 1)
+
+    def have(m):
+        return f"m_{ty}_{m}" in fns
+
+    def m(mn, part, args):
+        return f"m_{ty}_{mn}_{part}({', '.join(args)})"
+
+    def lift(part, x, g):
+        return lift_call(shape, part, x, g)
+
+    def lifted(x, g):
+        return [lift(p, x, g) for p in parts]
+
+    sin_lets, sin_g = tab_g("sin")
+    cos_lets, cos_g = tab_g("cos")
+    # tan: Y (x) cos(X) == sin(X)   (defining property of the quotient; no tan table needed)
+    if have("tan"):
+        Y = [m("tan", p, X) for p in parts]
+        ens = ["({ let x = x_re; " + sin_lets + f"{mul_call(shape, p, Y, lifted(X, cos_g))} == {lift(p, X, sin_g)}" + " })" for p in parts]
+        out.append(Lemma(f"lem_{ty}_tan", reals(X), ["cos_r(x_re) != 0real", "cos_r(x_re) * recip_r(cos_r(x_re)) == 1real"], ens,
+                         ["C01", "C03"], "tan: Y (x) cos(X) == sin(X) as jets (Y = sin X / cos X)"))
+    if have("tanh"):
+        sl, sg = tab_g("sinh")
+        cl, cg = tab_g("cosh")
+        Y = [m("tanh", p, X) for p in parts]
+        ens = ["({ let x = x_re; " + sl + f"{mul_call(shape, p, Y, lifted(X, cg))} == {lift(p, X, sg)}" + " })" for p in parts]
+        out.append(Lemma(f"lem_{ty}_tanh", reals(X), ["cosh_r(x_re) != 0real", "cosh_r(x_re) * recip_r(cosh_r(x_re)) == 1real"], ens,
+                         ["C01", "C03"], "tanh: Y (x) cosh(X) == sinh(X) as jets"))
+    if have("sin_cos"):
+        ens = []
+        for p in parts:
+            ens.append("({ let x = x_re; " + sin_lets + f"{m('sin_cos', '0_' + p, X)} == {lift(p, X, sin_g)}" + " })")
+            ens.append("({ let x = x_re; " + sin_lets + f"{m('sin_cos', '1_' + p, X)} == {lift(p, X, cos_g)}" + " })")
+        out.append(Lemma(f"lem_{ty}_sin_cos", reals(X), [], ens, ["C01", "C03"], "sin_cos = (sin, cos) jets"))
+    # abs / signum / abs_sub by the sign of the real part
+    sign_h = ["x_re != 0real", "x_re > 0real ==> is_positive_r(x_re)", "x_re < 0real ==> !is_positive_r(x_re)"]
+    if have("abs"):
+        ens = [f"x_re > 0real ==> {m('abs', p, X)} == x_{p}" for p in parts] + [f"x_re < 0real ==> {m('abs', p, X)} == -x_{p}" for p in parts]
+        out.append(Lemma(f"lem_{ty}_abs", reals(X), sign_h, ens, ["C01", "C06", "C03"], "abs = +-X by the sign of the real part"))
+    if have("signum"):
+        one = ["1real"] + zeros
+        ens = [f"x_re > 0real ==> {m('signum', p, X)} == {c}" for p, c in zip(parts, one)] + \
+              [f"x_re < 0real ==> {m('signum', p, X)} == -{c}" for p, c in zip(parts, one)]
+        out.append(Lemma(f"lem_{ty}_signum", reals(X), sign_h, ens, ["C01", "C06", "C03"], "signum = +-1 (constant) by the sign of the real part"))
+    if have("abs_sub"):
+        A = [f"a_{p}" for p in parts]
+        B = [f"b_{p}" for p in parts]
+        ens = [f"a_re > b_re ==> {m('abs_sub', p, A + B)} == a_{p} - b_{p}" for p in parts] + \
+              [f"a_re <= b_re ==> {m('abs_sub', p, A + B)} == 0real" for p in parts]
+        out.append(Lemma(f"lem_{ty}_abs_sub", reals(A + B), [], ens, ["C01", "C06"], "abs_sub = positive difference decided by the real parts"))
+    # ---------------- C09 powers ----------------
+    if have("powi"):
+        P = lambda k: f"powi_r(x_re, exp - {k})"  # noqa: E731
+        nr = "(exp as real)"
+        g = [P(0), f"{nr} * {P(1)}", f"{nr} * ({nr} - 1real) * {P(2)}", f"{nr} * ({nr} - 1real) * ({nr} - 2real) * {P(3)}"]
+        ens = [f"{m('powi', p, X + ['exp'])} == {lift(p, X, ['(' + t + ')' for t in g])}" for p in parts]
+        base = ["powi_r(x_re, 0) == 1real", "powi_r(x_re, 1) == x_re", "powi_r(x_re, 2) == x_re * x_re"]
+        gen = ["exp != 0", "exp != 1", "exp != 2",
+               "((exp * (exp - 1)) as real) == (exp as real) * ((exp as real) - 1real)",
+               "((exp * (exp - 1) * (exp - 2)) as real) == (exp as real) * ((exp as real) - 1real) * ((exp as real) - 2real)",
+               f"{P(0)} == {P(3)} * x_re * x_re * x_re", f"{P(1)} == {P(3)} * x_re * x_re", f"{P(2)} == {P(3)} * x_re"]
+        what = "powi: every part = lift of the generalized power rule n!/(n-k)! x^(n-k)"
+        for cname, hy in [("exp0", ["exp == 0"] + base), ("exp1", ["exp == 1"] + base), ("exp2", ["exp == 2"] + base), ("general", gen)]:
+            out.append(Lemma(f"lem_{ty}_powi_{cname}", reals(X) + ", exp: int", hy, ens, ["C09", "C02", "C10", "C03"], what + f" (case {cname})"))
+    if have("powf"):
+        F = lambda k: f"powf_r(x_re, n - {k}real)"  # noqa: E731
+        g = [F(0), f"n * {F(1)}", f"n * (n - 1real) * {F(2)}", f"n * (n - 1real) * (n - 2real) * {F(3)}"]
+        ens = [f"{m('powf', p, X + ['n'])} == {lift(p, X, ['(' + t + ')' for t in g])}" for p in parts]
+        base = ["eps_r() > 0real", "powf_r(x_re, 0real) == 1real", "powf_r(x_re, 1real) == x_re", "powf_r(x_re, 2real) == x_re * x_re"]
+        gen = ["n != 0real", "n != 1real", "!(abs_r(n - 2real) < eps_r())",
+               f"{F(0)} == {F(3)} * x_re * x_re * x_re", f"{F(1)} == {F(3)} * x_re * x_re", f"{F(2)} == {F(3)} * x_re"]
+        what = "powf: every part = lift of n(n-1)..x^(n-k)"
+        for cname, hy in [("n0", ["n == 0real"] + base), ("n1", ["n == 1real"] + base),
+                          ("near2", ["abs_r(n - 2real) < eps_r()", "n == 2real"] + base), ("general", gen)]:
+            out.append(Lemma(f"lem_{ty}_powf_{cname}", reals(X + ["n"]), hy, ens, ["C09", "C10", "C03"], what + f" (case {cname})"))
+    if have("powd"):
+        ln_lets, ln_g = tab_g("ln")
+        Z = [mul_call(shape, p, lifted(X, ln_g), N) for p in parts]
+        ens = ["({ let x = x_re; " + ln_lets + "let z = " + Z[0] + "; let e = exp_r(z); " +
+               f"{m('powd', p, X + N)} == {lift(p, Z, ['e', 'e', 'e', 'e'])}" + " })" for p in parts]
+        out.append(Lemma(f"lem_{ty}_powd", reals(X + N), [], ens, ["C09", "C03"], "powd = exp(N (x) ln X) as jets (logarithmic derivative w.r.t. a dual exponent)"))
+    # ---------------- C15 spherical Bessel ----------------
+    big = ["abs_r(x_re) >= eps_r()", "eps_r() > 0real", "x_re != 0real", "x_re * recip_r(x_re) == 1real",
+           "(x_re * x_re) * recip_r(x_re * x_re) == 1real", "(x_re * x_re * x_re) * recip_r(x_re * x_re * x_re) == 1real"]
+    zero_h = ["x_re == 0real", "eps_r() > 0real"]
+    S = lifted(X, sin_g)
+    Cc = lifted(X, cos_g)
+    XX = [mul_call(shape, p, X, X) for p in parts]
+    if have("sph_j0"):
+        Y = [m("sph_j0", p, X) for p in parts]
+        ens = ["({ let x = x_re; " + sin_lets + f"{mul_call(shape, p, Y, X)} == {S[i]}" + " })" for i, p in enumerate(parts)]
+        out.append(Lemma(f"lem_{ty}_sph_j0_closed", reals(X), big, ens, ["C15", "C03"], "sph_j0 for |x| >= eps (both signs): Y (x) X == sin X"))
+        tabz = ["1real", "0real", "(-(1real / 3real))", "0real"]
+        ens = [f"{Y[i]} == {lift(p, X, tabz)}" for i, p in enumerate(parts)]
+        out.append(Lemma(f"lem_{ty}_sph_j0_zero", reals(X), zero_h, ens, ["C15", "C10"], "sph_j0 at x = 0: lift of the Maclaurin table (1, 0, -1/3, 0)"))
+    if have("sph_j1"):
+        Y = [m("sph_j1", p, X) for p in parts]
+        YX = [mul_call(shape, p, Y, X) for p in parts]
+        XC = [mul_call(shape, p, X, Cc) for p in parts]
+        ens = ["({ let x = x_re; " + sin_lets + f"{mul_call(shape, p, YX, X)} == {S[i]} - {XC[i]}" + " })" for i, p in enumerate(parts)]
+        out.append(Lemma(f"lem_{ty}_sph_j1_closed", reals(X), big, ens, ["C15", "C03"], "sph_j1 for |x| >= eps: Y (x) X (x) X == sin X - X (x) cos X"))
+        tabz = ["0real", "(1real / 3real)", "0real", "(-(1real / 5real))"]
+        ens = [f"{Y[i]} == {lift(p, X, tabz)}" for i, p in enumerate(parts)]
+        out.append(Lemma(f"lem_{ty}_sph_j1_zero", reals(X), zero_h, ens, ["C15", "C10"], "sph_j1 at x = 0: lift of the Maclaurin table (0, 1/3, 0, -1/5)"))
+    if have("sph_j2"):
+        Y = [m("sph_j2", p, X) for p in parts]
+        YX = [mul_call(shape, p, Y, X) for p in parts]
+        YXX = [mul_call(shape, p, YX, X) for p in parts]
+        XC = [mul_call(shape, p, X, Cc) for p in parts]
+        XXS = [mul_call(shape, p, XX, S) for p in parts]
+        ens = ["({ let x = x_re; " + sin_lets + f"{mul_call(shape, p, YXX, X)} == 3real * {S[i]} - {XXS[i]} - 3real * {XC[i]}" + " })" for i, p in enumerate(parts)]
+        out.append(Lemma(f"lem_{ty}_sph_j2_closed", reals(X), big, ens, ["C15", "C03"], "sph_j2 for |x| >= eps: Y (x) X^3 == (3 - X^2) sin X - 3 X cos X"))
+        tabz = ["0real", "0real", "(2real / 15real)", "0real"]
+        ens = [f"{Y[i]} == {lift(p, X, tabz)}" for i, p in enumerate(parts)]
+        out.append(Lemma(f"lem_{ty}_sph_j2_zero", reals(X), zero_h, ens, ["C15", "C10"], "sph_j2 at x = 0: lift of the Maclaurin table (0, 0, 2/15, 0)"))
     return out
